@@ -91,6 +91,7 @@ type Property struct {
 	ThoroughUnbounded         bool
 	Cache                     bool
 	Delay                     bool // delay bounding for all scenarios
+	ReleasePoints             bool // release operations are scheduling points in all scenarios
 	QuickSecs, ThoroughSecs   int  // per work item deadline
 	NotReached                []string
 	// RaceHB additionally explores every scenario in the race-detector build ("<binary>hb"): the same schedules,
@@ -388,6 +389,9 @@ func runItem(p *Property, it workItem, tier string, seed int64, secs, bound int,
 	if p.Delay {
 		it.sc.Delay = true
 	}
+	if p.ReleasePoints {
+		it.sc.ReleasePoints = true
+	}
 	if tier == "quick" && it.sc.QuickMaxBound > 0 && (it.sc.MaxBound == 0 || it.sc.QuickMaxBound < it.sc.MaxBound) {
 		it.sc.MaxBound = it.sc.QuickMaxBound
 	}
@@ -674,6 +678,8 @@ func doReplay(p *Property, path string) int {
 	}
 	for _, sc := range p.Scenarios {
 		if sc.Name == rf.Part {
+			sc.Delay = sc.Delay || p.Delay
+			sc.ReleasePoints = sc.ReleasePoints || p.ReleasePoints
 			var sv sched.Violation
 			_ = json.Unmarshal(rf.Replay, &sv)
 			v, tr, err := sched.Replay(sc, sv.Schedule)
